@@ -60,9 +60,13 @@ type Model struct {
 	Log      []string
 	// parallel-multiple catch events: per node, how often each definition has been matched
 	// while the node was listening, and how often the node has fired
-	pmCount map[string]map[string]int
-	pmFired map[string]int
+	pmCount   map[string]map[string]int
+	pmFired   map[string]int
+	delivered map[string]int
 }
+
+// Delivered counts the deliveries of an event so far.
+func (m *Model) Delivered(kind, ref string) int { return m.delivered[kind+":"+ref] }
 
 func NewModel(g *Graph, vars map[string]any) *Model {
 	m := &Model{G: g, Vars: map[string]any{}, Requests: map[string]int{}, After: map[string]int{}}
@@ -535,6 +539,10 @@ func canon(v any) any {
 // Deliver hands an event to the model: every listening catch event with a matching definition
 // lets its tokens continue; boundary events of activities with a pending request react.
 func (m *Model) Deliver(kind, ref string) {
+	if m.delivered == nil {
+		m.delivered = map[string]int{}
+	}
+	m.delivered[kind+":"+ref]++
 	match := func(n *Node) bool {
 		for _, d := range n.Defs {
 			if d.Kind == kind && d.Ref == ref {
